@@ -76,6 +76,7 @@ from pysnark.boolean import PrivValBool, PubValBool, LinCombBool
 from pysnark.fixedpoint import PrivValFxp, PubValFxp, LinCombFxp
 from pysnark.branching import if_then_else
 from pysnark.array import Array
+from pysnark.pack import PackBool, PackIntMod, PackList, PackRepeat
 __inputs__ = _cfg.get("inputs", [])
 __zero__ = ConstVal(0)
 __CAUGHT__ = Exception
